@@ -144,14 +144,43 @@ def illConditioned (p : DayPerf) : Bool :=
   let inflow := (if 0 < p.portfolioFlows then p.portfolioFlows else 0) + p.inflow
   decide (absR (v0 + inflow) * 1000000 ≤ absR v0 + absR inflow)
 
-/-- per printed line of `perfLines`: does the period contain an ill-conditioned day? (same traversal) -/
-def condLines (span : Period) (endDates : List Int) : Bool → List DayPerf → List Bool
+/-- the magnitude of the numbers the float64 arithmetic of one day adds up: the absolute values of the day's valued
+postings on portfolio accounts (`ComputeFlows` sums them as floats) -/
+def dayGross (cfg : Cfg) (txs : List Transaction) : Rat :=
+  (((txs.flatMap (·.postings)).filter (fun p => isPortfolio cfg p.account)).map (fun p => absR p.value)).sum
+
+def sumAbs (m : AMap Commodity Rat) : Rat := (m.map (fun e => absR e.2)).sum
+
+/-- the day's denominator `V0 + inflow` is not zero but ten orders of magnitude below the numbers it is computed from (the
+per-commodity values and the day's posting values): it is a truncation residue of offsetting positions (e.g. a portfolio
+of ±265 000 CHF whose total is −0.00000001 CHF), and the rounding errors of the float64 sums (≈ 10⁻¹⁶ of the operands)
+become visible in the printed tenth of a percent.  Second class of the known findings about meaningless returns
+(`returns-meaningless-when-start-value-is-rounding-residue`). -/
+def residueConditioned (p : DayPerf) (gross : Rat) : Bool :=
+  let v0 := sumVals p.v0
+  let inflow := (if 0 < p.portfolioFlows then p.portfolioFlows else 0) + p.inflow
+  decide (absR (v0 + inflow) * 10000000000 ≤ sumAbs p.v0 + sumAbs p.v1 + gross)
+
+/-- the `dayGross` of every day of a run (same traversal as `perfFrom`) -/
+def grossFrom (cfg : Cfg) : PState → List Day → List Rat
   | _, [] => []
-  | running, p :: rest =>
+  | ps, d :: rest =>
+    match valuedDay cfg ps.bal d with
+    | .error _ => []
+    | .ok (_, txs) =>
+      match perfDay cfg ps d with
+      | .error _ => []
+      | .ok (ps', _) => dayGross cfg txs :: grossFrom cfg ps' rest
+
+/-- per printed line of `perfLines`: does the period contain an ill-conditioned day (1), or else a day whose denominator
+is a rounding residue (2)? (same traversal; the days come with their `dayGross`) -/
+def condLines (span : Period) (endDates : List Int) : Nat → List (DayPerf × Rat) → List Nat
+  | _, [] => []
+  | running, (p, g) :: rest =>
     if !span.contains p.date then condLines span endDates running rest
     else
-      let r := running || illConditioned p
-      if endDates.contains p.date then r :: condLines span endDates false rest
+      let r := if running = 1 || illConditioned p then 1 else if running = 2 || residueConditioned p g then 2 else 0
+      if endDates.contains p.date then r :: condLines span endDates 0 rest
       else condLines span endDates r rest
 
 /-- the flags of `knut portfolio returns` (and the window flags of `weights`) -/
@@ -196,12 +225,12 @@ def returns (f : Flags) (ds : List Directive) : Res (List (Int × Option Rat)) :
     | .error _ => .error "processing"
     | .ok perfs => .ok (perfLines (perfSpan part) part.endDates (some 1) perfs)
 
-/-- the ill-conditioning flags of the lines of `returns` -/
-def returnsCond (f : Flags) (ds : List Directive) : List Bool :=
+/-- the conditioning class of the lines of `returns` (0 well-conditioned, 1 `illConditioned`, 2 `residueConditioned`) -/
+def returnsCond (f : Flags) (ds : List Directive) : List Nat :=
   match setup f ds with
   | .ok (part, days) =>
     match perfFrom f.cfg {} days with
-    | .ok perfs => condLines (perfSpan part) part.endDates false perfs
+    | .ok perfs => condLines (perfSpan part) part.endDates 0 (perfs.zip (grossFrom f.cfg {} days))
     | .error _ => []
   | _ => []
 
